@@ -50,6 +50,8 @@ structure Cfg where
   lengthChecked : Bool
   /-- `ScriptVariable::ArchiveInternal` creates the string of a loaded String value empty (not `new str(4)`) -/
   valueStrFresh : Bool
+  /-- `ScriptVariable::ArchiveInternal` gives a loaded variable its kind only once the payload is complete -/
+  valueTypeLate : Bool
   /-- requests of this many bytes or more are refused by the allocator (`malloc` returns null and the
       code writes through it: `Err.alloc`).  The harness installs an allocator with exactly this limit. -/
   allocLimit : Nat
@@ -59,17 +61,17 @@ structure Cfg where
 def Cfg.current : Cfg :=
   { checkAfterRead := Gen.Archive.checkAfterRead, versionOr := Gen.Archive.versionOr,
     indexChecked := Gen.Archive.indexChecked, lengthChecked := Gen.Archive.lengthChecked,
-    valueStrFresh := Gen.Archive.valueStrFresh,
+    valueStrFresh := Gen.Archive.valueStrFresh, valueTypeLate := Gen.Archive.valueTypeLate,
     allocLimit := 2 ^ 20 }
 
 /-- every defect of the reader repaired -/
 def Cfg.fixed : Cfg :=
-  { checkAfterRead := true, versionOr := true, indexChecked := true, lengthChecked := true, valueStrFresh := true,
+  { checkAfterRead := true, versionOr := true, indexChecked := true, lengthChecked := true, valueStrFresh := true, valueTypeLate := true,
     allocLimit := 2 ^ 20 }
 /-- the reader of the unrepaired tree (used by the counter-example theorems) -/
 def Cfg.legacy : Cfg :=
   { checkAfterRead := false, versionOr := false, indexChecked := false, lengthChecked := false,
-    valueStrFresh := false, allocLimit := 2 ^ 20 }
+    valueStrFresh := false, valueTypeLate := false, allocLimit := 2 ^ 20 }
 
 /-- `version_info_t` -/
 structure Info where
